@@ -4,31 +4,31 @@
    bytes behind it); C03_full proves it along every history; the correspondence also evaluates it (WFdb) on every
    implementation state. *)
 From Coq Require Import List ZArith Bool. Import ListNotations.
-Require Import Package PkgManproof PkgZipproof Pkgproof Pkgproof3 Pkgproof4 Pkgproof5 PkgStepWF PkgStepWF4 PkgInitproof PkgHistproof PkgInstproof.
+Require Import Package PkgManproof PkgZipproof Pkgproof Pkgproof3 Pkgproof4 Pkgproof5 PkgStepWF PkgStepWF4 PkgInitproof PkgHistproof PkgFlatproof PkgBuffer PkgBufferproof PkgInstproof.
 Open Scope Z_scope.
 
 (* save (zip or folder; path or buffer target; pretty or not) then open by path: the new document shows, part by part,
    what the saved document holds in memory.  With pretty the equality is up to [mask], any projection that pretty_indent
    preserves (C11_pretty_text / C11_pretty_attrs_skeleton establish that for the projection of C11) *)
 Theorem C03_roundtrip : forall (xml bytes kid : Type) (ser : xml -> bytes) (par : bytes -> xml) (pretty stamp : xml -> xml)
-    (entries : xml -> mentries) (kids : xml -> list kid) (mime : bytes -> mtype) (rdf0 : bytes) (mask : xml -> xml),
+    (entries : xml -> mentries) (kids : xml -> list kid) (mime : bytes -> mtype) (rdf0 : bytes) (proj : Type) (mask : xml -> proj),
   (forall x, par (ser x) = x) ->
   forall (fs : fsys bytes kid) (d : document xml bytes) (t : target) (pk : packaging) (pty : bool) (fs' : fsys bytes kid) (d' : document xml bytes) (c : container bytes),
   WFd xml bytes kid fs d -> pk <> PXml -> (pty = true -> forall x, mask (pretty x) = mask x) ->
   d_save xml bytes kid ser par pretty stamp entries kids mime rdf0 FIXED fs d t pk pty = (fs', d', true) ->
   c_open bytes kid fs' (tgt_id t) false = Some c ->
-  forall n, view xml bytes kid par mask fs' (mkD c []) n = view xml bytes kid par mask fs d' n.
+  forall n, view xml bytes kid par proj mask fs' (mkD c []) n = view xml bytes kid par proj mask fs d' n.
 Proof. exact roundtrip. Qed.
 Print Assumptions C03_roundtrip.
 
 (* the file itself, read back independently, is the document: no part lost, invented or changed (domain and contents) *)
 Theorem C03_no_part_lost_or_invented : forall (xml bytes kid : Type) (ser : xml -> bytes) (par : bytes -> xml) (pretty stamp : xml -> xml)
-    (entries : xml -> mentries) (kids : xml -> list kid) (mime : bytes -> mtype) (rdf0 : bytes) (mask : xml -> xml),
+    (entries : xml -> mentries) (kids : xml -> list kid) (mime : bytes -> mtype) (rdf0 : bytes) (proj : Type) (mask : xml -> proj),
   (forall x, par (ser x) = x) ->
   forall (fs : fsys bytes kid) (d : document xml bytes) (t : target) (pk : packaging) (pty : bool) (fs' : fsys bytes kid) (d' : document xml bytes),
   WFd xml bytes kid fs d -> pk <> PXml -> (pty = true -> forall x, mask (pretty x) = mask x) ->
   d_save xml bytes kid ser par pretty stamp entries kids mime rdf0 FIXED fs d t pk pty = (fs', d', true) ->
-  forall n, file_view xml bytes kid par mask (lookup (tgt_id t) fs') n = view xml bytes kid par mask fs d' n.
+  forall n, file_view xml bytes kid par proj mask (lookup (tgt_id t) fs') n = view xml bytes kid par proj mask fs d' n.
 Proof. exact save_file_is_memory. Qed.
 Print Assumptions C03_no_part_lost_or_invented.
 
@@ -36,12 +36,12 @@ Print Assumptions C03_no_part_lost_or_invented.
    so together with the two theorems above  view (open (save d)) = view d  for every part but manifest.rdf, which
    Document.save reconciles with the manifest on purpose *)
 Theorem C03_unmodified_identity : forall (xml bytes kid : Type) (ser : xml -> bytes) (par : bytes -> xml) (pretty stamp : xml -> xml)
-    (entries : xml -> mentries) (kids : xml -> list kid) (mime : bytes -> mtype) (rdf0 : bytes) (mask : xml -> xml),
+    (entries : xml -> mentries) (kids : xml -> list kid) (mime : bytes -> mtype) (rdf0 : bytes) (proj : Type) (mask : xml -> proj),
   (forall x, mask (stamp x) = mask x) ->
   forall (fs : fsys bytes kid) (d : document xml bytes) (t : target) (pk : packaging) (pty : bool) (fs' : fsys bytes kid) (d' : document xml bytes),
   WFd xml bytes kid fs d ->
   d_save xml bytes kid ser par pretty stamp entries kids mime rdf0 FIXED fs d t pk pty = (fs', d', true) ->
-  forall n, n <> RDF -> view xml bytes kid par mask fs d' n = view xml bytes kid par mask fs d n.
+  forall n, n <> RDF -> view xml bytes kid par proj mask fs d' n = view xml bytes kid par proj mask fs d n.
 Proof. exact save_pure. Qed.
 Print Assumptions C03_unmodified_identity.
 
@@ -91,6 +91,14 @@ Theorem C03_folder_set_part_refuted : exists fs d n b,
 Proof. exact f34_refuted. Qed.
 Print Assumptions C03_folder_set_part_refuted.
 
+(* F35 before its repair (Container.parts listed the file, not memory): a manifest.rdf provided through the API on a
+   path-opened package that had none is replaced by save; with the repair (fixes/F35-*.diff) save keeps it *)
+Theorem C03_parts_listing_refuted : exists (s : cfs * cdoc) (o1 o2 : cop) (n : name),
+  (let s1 := fst (cstep FIXED35OFF s o1) in let s2 := fst (cstep FIXED35OFF s1 o2) in cview (fst s2) (snd s2) n <> cview (fst s1) (snd s1) n) /\
+  (let s1 := fst (cstep FIXED s o1) in let s2 := fst (cstep FIXED s1 o2) in cview (fst s2) (snd s2) n = cview (fst s1) (snd s1) n).
+Proof. exact f35_refuted. Qed.
+Print Assumptions C03_parts_listing_refuted.
+
 (* the hypotheses are inhabited: a path-opened zip with an unread part, a parsed and edited content, an added and a deleted part *)
 Example C03_example : WFd cxml cbytes Z ex_fs ex_doc /\ (forall x, cpar (cser x) = x) /\ (forall x, cmask (cstamp x) = cmask x).
 Proof. exact (conj ex_doc_wf (conj cpar_cser cmask_cstamp)). Qed.
@@ -136,7 +144,7 @@ Theorem C03_roundtrip_reachable :
            (entries : xml -> mentries) (with_entries : mentries -> xml -> xml)
            (kids : xml -> list kid) (mime : bytes -> mtype)
            (mime_bytes : mtype -> bytes) (rdf0 : bytes) 
-           (mask : xml -> xml),
+           (proj : Type) (mask : xml -> proj),
          (forall x : xml, par (ser x) = x) ->
          forall (s0 : fsys bytes kid * document xml bytes)
            (os : list (op xml bytes)),
@@ -156,8 +164,8 @@ Theorem C03_roundtrip_reachable :
          fs', d', true) ->
          c_open bytes kid fs' (tgt_id t) false = Some c ->
          forall n : name,
-         view xml bytes kid par mask fs' {| cont := c; xps := nil |} n =
-         view xml bytes kid par mask
+         view xml bytes kid par proj mask fs' {| cont := c; xps := nil |} n =
+         view xml bytes kid par proj mask
            (fst
               (run xml bytes kid ser par pretty stamp entries with_entries kids
                  mime mime_bytes rdf0 FIXED s0 os)) d' n.
@@ -171,7 +179,7 @@ Theorem C03_unmodified_identity_reachable :
            (entries : xml -> mentries) (with_entries : mentries -> xml -> xml)
            (kids : xml -> list kid) (mime : bytes -> mtype)
            (mime_bytes : mtype -> bytes) (rdf0 : bytes) 
-           (mask : xml -> xml),
+           (proj : Type) (mask : xml -> proj),
          (forall x : xml, par (ser x) = x) ->
          forall (s0 : fsys bytes kid * document xml bytes)
            (os : list (op xml bytes)),
@@ -189,11 +197,11 @@ Theorem C03_unmodified_identity_reachable :
          fs', d', true) ->
          forall n : name,
          n <> RDF ->
-         view xml bytes kid par mask
+         view xml bytes kid par proj mask
            (fst
               (run xml bytes kid ser par pretty stamp entries with_entries kids
                  mime mime_bytes rdf0 FIXED s0 os)) d' n =
-         view xml bytes kid par mask
+         view xml bytes kid par proj mask
            (fst
               (run xml bytes kid ser par pretty stamp entries with_entries kids
                  mime mime_bytes rdf0 FIXED s0 os))
@@ -203,11 +211,102 @@ Theorem C03_unmodified_identity_reachable :
 Proof. exact save_pure_reachable. Qed.
 Print Assumptions C03_unmodified_identity_reachable.
 
+(* C03_roundtrip with the re-opening by path OR from a BytesIO (every member read at once), for every reachable state *)
+Theorem C03_roundtrip_reachable_any_open :
+  forall (xml bytes kid : Type) (ser : xml -> bytes)
+           (par : bytes -> xml) (pretty stamp : xml -> xml)
+           (entries : xml -> mentries) (with_entries : mentries -> xml -> xml)
+           (kids : xml -> list kid) (mime : bytes -> mtype)
+           (mime_bytes : mtype -> bytes) (rdf0 : bytes) 
+           (proj : Type) (mask : xml -> proj),
+         (forall x : xml, par (ser x) = x) ->
+         forall (s0 : fsys bytes kid * document xml bytes)
+           (os : list (op xml bytes)),
+         PkgStepWF4.SInv xml bytes kid s0 ->
+         forall (t : target) (pk : packaging) (pty : bool)
+           (fs' : fsys bytes kid) (d' : document xml bytes) 
+           (b : bool) (c : container bytes),
+         pk <> PXml ->
+         (pty = true -> forall x : xml, mask (pretty x) = mask x) ->
+         d_save xml bytes kid ser par pretty stamp entries kids mime rdf0 FIXED
+           (fst
+              (run xml bytes kid ser par pretty stamp entries with_entries kids
+                 mime mime_bytes rdf0 FIXED s0 os))
+           (snd
+              (run xml bytes kid ser par pretty stamp entries with_entries kids
+                 mime mime_bytes rdf0 FIXED s0 os)) t pk pty = (
+         fs', d', true) ->
+         c_open bytes kid fs' (tgt_id t) b = Some c ->
+         forall n : name,
+         view xml bytes kid par proj mask fs' {| cont := c; xps := nil |} n =
+         view xml bytes kid par proj mask
+           (fst
+              (run xml bytes kid ser par pretty stamp entries with_entries kids
+                 mime mime_bytes rdf0 FIXED s0 os)) d' n.
+Proof. exact roundtrip_reachable_any. Qed.
+Print Assumptions C03_roundtrip_reachable_any_open.
+
+(* flat XML export of any well-formed state: the file holds office:mimetype and, in the order meta, settings, styles, content, exactly the children (whole subtrees, [kids]) of the trees the document has in memory — not only their order (C03_flatxml_partial). The optional indentation of the assembled root is pretty_indent's (C11) *)
+Theorem C03_flatxml :
+  forall (xml bytes kid : Type) (ser : xml -> bytes)
+           (par : bytes -> xml) (pretty stamp : xml -> xml)
+           (entries : xml -> mentries) (kids : xml -> list kid)
+           (mime : bytes -> mtype) (rdf0 : bytes),
+         (forall x : xml, par (ser x) = x) ->
+         forall (fs : fsys bytes kid) (d : document xml bytes) 
+           (t : target) (pty : bool) (fs' : fsys bytes kid)
+           (d' : document xml bytes),
+         WFd xml bytes kid fs d ->
+         d_save xml bytes kid ser par pretty stamp entries kids mime rdf0 FIXED
+           fs d t PXml pty = (fs', d', true) ->
+         exists m : mtype,
+           lookup (tgt_id t) fs' =
+           Some
+             (FFlat m
+                (kids_of xml bytes kid par kids fs d' META ++
+                 kids_of xml bytes kid par kids fs d' SETTINGS ++
+                 kids_of xml bytes kid par kids fs d' STYLES ++
+                 kids_of xml bytes kid par kids fs d' CONTENT)).
+Proof. exact flatxml_is_memory. Qed.
+Print Assumptions C03_flatxml.
+
+(* a BytesIO reused as the target of zip saves (PkgBuffer.v: cells, position, write = overwrite + extend at the position, read = the archive that ends the buffer if it is there in full): a save that leaves the position alone appends, and open reads the archive just written whatever the buffer held *)
+Theorem C03_buffer_reads_last_archive :
+  forall size : BinNums.Z -> nat,
+         (forall z : BinNums.Z, (0 < size z)%nat) ->
+         forall (z : BinNums.Z) (b : buffer),
+         at_end b ->
+         read size (save_append size z b) = Some z /\
+         at_end (save_append size z b).
+Proof. exact read_after_append. Qed.
+Print Assumptions C03_buffer_reads_last_archive.
+
+(* ... after any number of saves into the same buffer *)
+Theorem C03_buffer_reads_last_of_many :
+  forall size : BinNums.Z -> nat,
+         (forall z : BinNums.Z, (0 < size z)%nat) ->
+         forall (zs : list BinNums.Z) (z : BinNums.Z) (b : buffer),
+         at_end b ->
+         read size
+           (save_append size z
+              (List.fold_left
+                 (fun (b0 : buffer) (z0 : BinNums.Z) => save_append size z0 b0)
+                 zs b)) = Some z.
+Proof. exact read_last_of_many. Qed.
+Print Assumptions C03_buffer_reads_last_of_many.
+
+(* the rewound-but-not-truncated writer (`target.seek(0)` before ZipFile(target, "w")): a shorter archive written over a longer
+   one is not what open reads back; the appending writer reads it back (same witness) *)
+Theorem C03_buffer_rewind_refuted : exists z1 z2 b, at_end b /\ read ex_size (save_append ex_size z1 b) = Some z1 /\
+  read ex_size (save_rewound ex_size z2 (save_append ex_size z1 b)) <> Some z2
+  /\ read ex_size (save_append ex_size z2 (save_append ex_size z1 b)) = Some z2.
+Proof. exact read_after_rewind_refuted. Qed.
+Print Assumptions C03_buffer_rewind_refuted.
+
 (* the initial-state predicate is inhabited: the file system of the four templates has unique member names, and the empty
    document (before the first open / new) is well formed *)
 Example C03_initial_state : SInv cxml cbytes Z (tmpl_fs, mkD (mkC [] [] None PZip) []).
 Proof. exact (conj (proj1 tmpl_fs_ok) (empty_doc_wf cxml cbytes Z tmpl_fs)). Qed.
 
-(* still covered by the correspondence only: re-opening from a BytesIO in C03_roundtrip (stated for opening by path; the part
-   map of a buffer-opened package is characterised by PkgOKstep4.open_obs and used for C04), flat XML beyond
-   C03_flatxml_partial, in-place folder saves (clock). *)
+(* still covered by the correspondence only: in-place folder saves (their outcome depends on the clock), and that zipfile / BytesIO
+   behave as PkgBuffer.v says (buffer reuse is exercised on every run). *)
